@@ -1,0 +1,113 @@
+//go:build verif
+
+// Contracts for the deductive checker in /verif (govc). Comment-only; ignored without the
+// "verif" build tag. kv.*, it.* and gas.* are the observer ghosts declared in
+// store/types/zz_contracts_verif.go: gas.used is the running total of the gas meter, gas.limit
+// its limit, kv.gasAtCall / it.gasAtCall the total at the moment the wrapped store was called.
+//
+// Gas consumed is the documented function of the operation: flat cost + per-byte cost times the
+// length of the value read or written; the flat charge is taken BEFORE the wrapped store is
+// touched; the meter raises ErrorOutOfGas / ErrorGasOverflow at exactly the charge that crosses
+// the limit / 2^64. Per-byte costs below 65536 (shipped table: 3 and 30) cannot wrap the product.
+
+package gaskv
+
+//@ func (gs *Store) Get(key []byte) (value []byte)
+//@   props C16
+//@   requires 0 <= gas.used && gas.used <= 18446744073709551615 && gs.gasConfig.ReadCostPerByte < 65536
+//@   modifies kv.*, gas.used, gas.calls
+//@   panics ErrorGasOverflow when gas.used + gs.gasConfig.ReadCostFlat > 18446744073709551615
+//@   panics ErrorOutOfGas when gas.used + gs.gasConfig.ReadCostFlat <= 18446744073709551615 && gas.used + gs.gasConfig.ReadCostFlat > gas.limit
+//@   panics ErrorGasOverflow at_site kv.calls == old(kv.calls) + 1 && gas.used + gs.gasConfig.ReadCostPerByte * len(kv.ret) > 18446744073709551615
+//@   panics ErrorOutOfGas at_site kv.calls == old(kv.calls) + 1 && gas.used + gs.gasConfig.ReadCostPerByte * len(kv.ret) <= 18446744073709551615 && gas.used + gs.gasConfig.ReadCostPerByte * len(kv.ret) > gas.limit
+//@   ensures kv.calls == old(kv.calls) + 1 && kv.op == 1 && kv.recv == gs.parent && kv.key == key && value == kv.ret
+//@   ensures kv.gasAtCall == old(gas.used) + gs.gasConfig.ReadCostFlat
+//@   ensures gas.used == old(gas.used) + gs.gasConfig.ReadCostFlat + gs.gasConfig.ReadCostPerByte * len(value)
+//@   ensures gas.calls == old(gas.calls) + 2 && gas.used <= gas.limit
+//@
+//@ func (gs *Store) Set(key []byte, value []byte)
+//@   props C16
+//@   requires 0 <= gas.used && gas.used <= 18446744073709551615 && gs.gasConfig.WriteCostPerByte < 65536
+//@   modifies kv.*, gas.used, gas.calls
+//@   panics string when value == nil
+//@   panics ErrorGasOverflow when value != nil && (gas.used + gs.gasConfig.WriteCostFlat > 18446744073709551615
+//@     || (gas.used + gs.gasConfig.WriteCostFlat <= gas.limit && gas.used + gs.gasConfig.WriteCostFlat + gs.gasConfig.WriteCostPerByte * len(value) > 18446744073709551615))
+//@   panics ErrorOutOfGas when value != nil && ((gas.used + gs.gasConfig.WriteCostFlat <= 18446744073709551615 && gas.used + gs.gasConfig.WriteCostFlat > gas.limit)
+//@     || (gas.used + gs.gasConfig.WriteCostFlat <= gas.limit && gas.used + gs.gasConfig.WriteCostFlat + gs.gasConfig.WriteCostPerByte * len(value) <= 18446744073709551615
+//@         && gas.used + gs.gasConfig.WriteCostFlat + gs.gasConfig.WriteCostPerByte * len(value) > gas.limit))
+//@   ensures kv.calls == old(kv.calls) + 1 && kv.op == 3 && kv.recv == gs.parent && kv.key == key && kv.val == value
+//@   ensures kv.gasAtCall == gas.used
+//@   ensures gas.used == old(gas.used) + gs.gasConfig.WriteCostFlat + gs.gasConfig.WriteCostPerByte * len(value)
+//@   ensures gas.calls == old(gas.calls) + 2 && gas.used <= gas.limit
+//@
+//@ func (gs *Store) Has(key []byte) (r bool)
+//@   props C16
+//@   requires 0 <= gas.used && gas.used <= 18446744073709551615
+//@   modifies kv.*, gas.used, gas.calls
+//@   panics ErrorGasOverflow when gas.used + gs.gasConfig.HasCost > 18446744073709551615
+//@   panics ErrorOutOfGas when gas.used + gs.gasConfig.HasCost <= 18446744073709551615 && gas.used + gs.gasConfig.HasCost > gas.limit
+//@   ensures kv.calls == old(kv.calls) + 1 && kv.op == 2 && kv.recv == gs.parent && kv.key == key && r == kv.retb
+//@   ensures kv.gasAtCall == gas.used && gas.used == old(gas.used) + gs.gasConfig.HasCost && gas.calls == old(gas.calls) + 1
+//@
+//@ func (gs *Store) Delete(key []byte)
+//@   props C16
+//@   requires 0 <= gas.used && gas.used <= 18446744073709551615
+//@   modifies kv.*, gas.used, gas.calls
+//@   panics ErrorGasOverflow when gas.used + gs.gasConfig.DeleteCost > 18446744073709551615
+//@   panics ErrorOutOfGas when gas.used + gs.gasConfig.DeleteCost <= 18446744073709551615 && gas.used + gs.gasConfig.DeleteCost > gas.limit
+//@   ensures kv.calls == old(kv.calls) + 1 && kv.op == 4 && kv.recv == gs.parent && kv.key == key
+//@   ensures kv.gasAtCall == gas.used && gas.used == old(gas.used) + gs.gasConfig.DeleteCost && gas.calls == old(gas.calls) + 1
+//@
+// consumeSeekGas: one per-byte charge for the current value plus the flat iteration cost.
+//@ func (gi *gasIterator) consumeSeekGas()
+//@   props C16
+//@   requires 0 <= gas.used && gas.used <= 18446744073709551615 && gi.gasConfig.ReadCostPerByte < 65536
+//@   modifies it.*, gas.used, gas.calls
+//@   panics ErrorGasOverflow at_site gas.used + gi.gasConfig.ReadCostPerByte * len(it.ret) > 18446744073709551615 || (gas.calls == old(gas.calls) + 1 && gas.used + gi.gasConfig.IterNextCostFlat > 18446744073709551615)
+//@   panics ErrorOutOfGas at_site true
+//@   ensures it.calls == old(it.calls) + 1 && it.op == 4 && it.recv == gi.parent
+//@   ensures gas.used == old(gas.used) + gi.gasConfig.ReadCostPerByte * len(it.ret) + gi.gasConfig.IterNextCostFlat
+//@   ensures gas.calls == old(gas.calls) + 2 && gas.used <= gas.limit
+//@
+// Next: if the iterator is valid, the step is charged (consumeSeekGas) before the parent advances.
+//@ func (gi *gasIterator) Next()
+//@   props C16
+//@   requires 0 <= gas.used && gas.used <= 18446744073709551615 && gi.gasConfig.ReadCostPerByte < 65536
+//@   modifies it.*, gas.used, gas.calls
+//@   panics ErrorGasOverflow at_site true
+//@   panics ErrorOutOfGas at_site true
+//@   ensures it.op == 2 && it.recv == gi.parent
+//@   ensures gas.calls == old(gas.calls) || gas.calls == old(gas.calls) + 2
+//@   ensures gas.calls == old(gas.calls) ==> gas.used == old(gas.used) && it.calls == old(it.calls) + 2
+//@   ensures gas.calls == old(gas.calls) + 2 ==> it.calls == old(it.calls) + 3 && gas.used >= old(gas.used) + gi.gasConfig.IterNextCostFlat && it.gasAtCall == gas.used
+//@
+//@ func (gi *gasIterator) Valid() (r bool)
+//@   props C16
+//@   modifies it.*
+//@   ensures it.calls == old(it.calls) + 1 && it.op == 1 && it.recv == gi.parent && r == it.retb
+//@
+//@ func (gi *gasIterator) Key() (key []byte)
+//@   props C16
+//@   modifies it.*
+//@   ensures it.calls == old(it.calls) + 1 && it.op == 3 && it.recv == gi.parent && key == it.ret
+//@
+//@ func (gi *gasIterator) Value() (value []byte)
+//@   props C16
+//@   modifies it.*
+//@   ensures it.calls == old(it.calls) + 1 && it.op == 4 && it.recv == gi.parent && value == it.ret
+//@
+// iterator: exactly one parent Iterator/ReverseIterator call with the caller's bounds; the seek is
+// charged once if the fresh iterator is valid, and nothing is charged otherwise.
+//@ func (gs *Store) iterator(start, end []byte, ascending bool) (r types.Iterator)
+//@   props C16
+//@   requires 0 <= gas.used && gas.used <= 18446744073709551615 && gs.gasConfig.ReadCostPerByte < 65536
+//@   modifies kv.*, it.*, gas.used, gas.calls
+//@   panics ErrorGasOverflow at_site true
+//@   panics ErrorOutOfGas at_site true
+//@   ensures kv.calls == old(kv.calls) + 1 && kv.recv == gs.parent && kv.key == start && kv.val == end
+//@   ensures ascending ==> kv.op == 5
+//@   ensures !ascending ==> kv.op == 6
+//@   ensures kv.gasAtCall == old(gas.used)
+//@   ensures gas.calls == old(gas.calls) || gas.calls == old(gas.calls) + 2
+//@   ensures gas.calls == old(gas.calls) ==> gas.used == old(gas.used)
+//@   ensures gas.calls == old(gas.calls) + 2 ==> gas.used >= old(gas.used) + gs.gasConfig.IterNextCostFlat
